@@ -17,6 +17,32 @@ CLAIMED = {
     ),
 }
 
+CLAIMED["C01"] = dict(
+    technique="TLA+ spec ProducerCore model-checked by TLC (all interleavings + retriable fault budget) + TLC trace validation of the real producer on a simulated cluster",
+    category="model_checking",
+    text="ProducerCore.tla models accumulator, sender, sequence stamping, metadata view and the leaders' idempotence rules with one action per "
+         "critical section; TLC exhaustively checks OneInFlightPerPartition, SeqContiguous (no gap/reuse/out-of-range sequence shown to any broker), "
+         "LogFromAccepted, TaskOrder, AtMostOnce, AckedExactlyOnce, DuplicatesAreWholeBatches under every placement of a bounded number of retriable faults, "
+         "with the sequence space wrapping inside the run. The real AIOKafkaProducer then runs on a deterministic virtual-time loop against a simulated cluster "
+         "(real wire protocol, independent batch reader) over hundreds/thousands of seeded scenarios with faults, leader moves and stale metadata; every run's event "
+         "trace must be a behaviour of the spec and every invariant is evaluated at every step by TLC. Schedules/fault sequences/histories are exactly what "
+         "model checking + trace validation enumerate.",
+    design_ref="4/C01",
+    note="Trusted: TLC; the simulated cluster's Kafka rules (its own steps are validated by the same trace spec); aiokafka's request/response codecs used to decode "
+         "requests at the simulated broker; asyncio FIFO scheduling on the virtual-time loop. Bounds stated in evidence.",
+)
+CLAIMED["C02"] = dict(
+    technique="same ProducerCore spec: TLC invariants + liveness (EventuallyResolved under fairness) + trace validation of send() future resolutions of the real producer",
+    category="model_checking",
+    text="On ProducerCore.tla TLC checks ResolvedAtMostOnce, TrueCoordinates (offset, timestamp and timestamp type equal the log's), Acks0NoMetadata, IdemNeverFails "
+         "and the temporal property <>[]AllResolved under weak fairness with a finite fault budget. On the real code, done-callbacks of every send() future are logged "
+         "with the actual RecordMetadata and TLC compares them, at every step, with the partition log reconstructed from what the simulated brokers appended "
+         "(independent batch reader); flush()/stop() returns and the post-fault quiet period are trace actions that are only enabled when everything accepted is resolved. "
+         "Configurations: acks 0/1/all, idempotent or not, CreateTime/LogAppendTime, Produce v0..v7, explicit/default timestamps in every order.",
+    design_ref="4/C02",
+    note="As C01. Default (None) timestamps come from the C-level wall clock of the compiled builder and are rank-compressed by the projection; explicit timestamps are exact.",
+)
+
 NOT_APPLICABLE = {
     "C10": "memory safety of C-level reads on hostile bytes has no TLA+ state to bind to; outcome depends on heap neighbours (needs sanitizers, a different technique) - see DESIGN.md section 5",
 }
